@@ -336,7 +336,7 @@ async def _snap(w):
 
 
 async def replay_d8():
-    """Witness of C10_del_dep_need_flag_refuted_when_sink_only on the real Workflow + Scheduler.
+    """Witness of C10_del_dep_need_flag_refuted_for_sink_only_trigger on the real Workflow + Scheduler.
 
     plan (RUNNING) declares p_in.txt and defines P (OPTIONAL, inp p_in.txt, out f.txt) and C
     (DEFAULT).  C runs, amends f.txt (not built yet) and is deferred; P is now needed, runs and
@@ -405,7 +405,7 @@ async def replay_d8():
 
 
 async def replay_d11():
-    """Witness of C10_update_meta_full_refuted_when_merged_by_min on the real Workflow + Scheduler.
+    """Witness of C10_update_meta_refuted_for_min_merge on the real Workflow + Scheduler.
 
     plan -> c -> b, everything SUCCEEDED.  plan becomes PENDING without a stored hash (what
     persist_nglob_matches does when a glob of plan.py gained a match) and b becomes PENDING (its
